@@ -124,6 +124,14 @@ impl GenerationPass for AvailableValuePass {
             crate::verif_hooks::sweep(crate::verif_hooks::Pass::AvailableValue);
             changed = false;
             for node in cfg.iter() {
+                // A node whose predecessors have all not been visited yet has to wait: it
+                // would start from "nothing is known" instead of from the optimistic
+                // assumption, and around a loop that runs against the program order such a
+                // start value chases the real one forever.
+                if !node.prevs().is_empty() && !node.prevs().iter().any(|x| visited.contains(x)) {
+                    continue;
+                }
+
                 // in[n] = AND out[p] for all p in prev[n]
                 let in_reg_n = node
                     .prevs()
